@@ -45,7 +45,9 @@ def leaves(kind):
     if kind == "f":
         return [("a", ln.Symbol("a", R)), ("b", ln.Symbol("b", R)), ("2.5", ln.LiteralFloat(2.5)), ("-2.5", ln.LiteralFloat(-2.5)),
                 ("T[i]", ln.ArrayAccess(ln.Symbol("T", R), (ln.Symbol("i", I),))), ("3", ln.LiteralInt(3)), ("7.0", ln.LiteralFloat(7.0)),
-                ("2j", ln.LiteralFloat(2j)), ("1.5-2j", ln.LiteralFloat(1.5 - 2j))]
+                ("2j", ln.LiteralFloat(2j)), ("1.5-2j", ln.LiteralFloat(1.5 - 2j)),
+                # constants that formatters like to special-case
+                ("I2", ln.LiteralInt(2)), ("1.0", ln.LiteralFloat(1.0)), ("I0", ln.LiteralInt(0)), ("0.5", ln.LiteralFloat(0.5)), ("-1.0", ln.LiteralFloat(-1.0))]
     if kind == "b":
         return [("a<b", ln.LT(ln.Symbol("a", R), ln.Symbol("b", R))), ("c>=a", ln.GE(ln.Symbol("c", R), ln.Symbol("a", R)))]
     if kind == "i":
@@ -131,6 +133,21 @@ def gen_trees(tier):
                 fill = {q: il for q, kk in enumerate(argk) if kk == "f" and q != p}
                 fill[p] = (clab, cnode)
                 out.append(build(o, fill))
+    # depth 2, arithmetic parents: every real-valued child operator with every leaf in every child position
+    # (a child that is special-cased for particular constants, e.g. power(x, 2), in every parent position)
+    arith_parents = ["Add", "Sub", "Mul", "Div", "Neg", "Sum3", "Product3", "power", "sqrt", "Conditional", "LT"]
+    for o in arith_parents:
+        kind, argk, ctor = ops[o]
+        for p, k in enumerate(argk):
+            if k != "f":
+                continue
+            for c, (ckind, cargk, cctor) in ops.items():
+                if ckind != "f":
+                    continue
+                for cp, ck in enumerate(cargk):
+                    for lf in leaves(ck):
+                        clab, cnode, _ = build(c, {cp: lf})
+                        out.append(build(o, {p: (clab, cnode)}))
     # depth 2: every (parent, position, child operator)
     for o, (kind, argk, ctor) in ops.items():
         for p, k in enumerate(argk):
